@@ -708,6 +708,8 @@ class Interp(object):
         model = self.model
         if _depth > 8:
             return Top('import cycle %s' % name)
+        if name in m.functions.aliases and name in m.constants:
+            return self.const_expr(m, m.constants[name])       # what the alias expression evaluates to (a bound class method ...)
         if name in m.functions and '.' not in name:
             f = m.functions[name]
             if isinstance(f, ast.FunctionDef) and f.decorator_list:
@@ -1013,7 +1015,12 @@ class Interp(object):
         m = fv.module
         key = (m.name, m.qualname_of(node)) if not isinstance(node, ast.Lambda) else None
         if key in self.opaque:
-            r = self.opaque[key](self, args, kwargs)
+            # a summary speaks about the arguments of the call as written: the class a class method is bound to is not one of them
+            sargs = args
+            if isinstance(node, ast.FunctionDef) and args and isinstance(args[0], ClassV) and \
+                    any(src(d_) == 'classmethod' for d_ in node.decorator_list):
+                sargs = args[1:]
+            r = self.opaque[key](self, sargs, kwargs)
             if r is not NotImplemented:
                 return r
         self.depth += 1
@@ -1120,6 +1127,40 @@ class Interp(object):
             self.call_func(Func(lm[0], lm[2]), [obj] + list(args), kwargs)
         return obj
 
+    def class_dynamic(self, cv, run=True):
+        """Attributes put on a package class by module-level code after the class statement (``setattr(Cls, name, fn)`` in a loop over a
+        table, ``Cls.name = fn``): the statements that do so are executed once, abstractly; returns {name: value}."""
+        store = self.__dict__.setdefault('_class_dyn', {})
+        key = (cv.module.name, cv.node.name, cv.node.lineno)
+        done = self.__dict__.setdefault('_class_dyn_done', set())
+        store.setdefault(key, {})
+        if not run or key in done:
+            return store[key]
+        done.add(key)
+        m, cname = cv.module, cv.node.name
+        saved = (getattr(self, 'state', None), getattr(self, 'depth', 0), getattr(self, '_decisions', []), getattr(self, '_dpos', 0))
+        try:
+            for st in m.tree.body:
+                if isinstance(st, (ast.FunctionDef, ast.ClassDef, ast.Import, ast.ImportFrom)):
+                    continue
+                hit = False
+                for x in ast.walk(st):
+                    if isinstance(x, ast.Call) and isinstance(x.func, ast.Name) and x.func.id == 'setattr' and x.args \
+                            and isinstance(x.args[0], ast.Name) and x.args[0].id == cname:
+                        hit = True
+                    if isinstance(x, ast.Attribute) and isinstance(x.ctx, ast.Store) and isinstance(x.value, ast.Name) and x.value.id == cname:
+                        hit = True
+                if not hit:
+                    continue
+                self.state, self.depth, self._decisions, self._dpos = State(), 0, [], 0
+                try:
+                    self.block([st], Frame({}, None, m))
+                except _Signal:
+                    raise Unmodelled('module-level code that extends class %s is not evaluable' % cname)
+        finally:
+            self.state, self.depth, self._decisions, self._dpos = saved
+        return store[key]
+
     def enum_members(self, cv):
         """Members of an enum class (name -> one object per member, structurally distinct), or None for other classes."""
         if cv.module is None or not isinstance(cv.node, ast.ClassDef):
@@ -1173,7 +1214,17 @@ class Interp(object):
         if isinstance(obj, Obj):
             lm = self.model.lookup_method(obj.cls.module, obj.cls.node, name)
             if lm:
+                decos = [src(d_) for d_ in getattr(lm[2], 'decorator_list', [])]
+                if 'staticmethod' in decos:
+                    return Func(lm[0], lm[2])
+                if 'classmethod' in decos:
+                    return Bound(obj.cls, Func(lm[0], lm[2]))
                 return Bound(obj, Func(lm[0], lm[2]))
+            if obj.cls.module is not None:
+                for mm_, cc_ in self.model.mro(obj.cls.module, obj.cls.node):
+                    dv = self.class_dynamic(ClassV(mm_, cc_)).get(name)
+                    if isinstance(dv, Func):
+                        return Bound(obj, dv)
             if obj.cls.module is not None and _depth < 4:
                 # a method produced by an expression in the class body:  __sub__ = make_op('-') ;  __rmul__ = __mul__
                 ca = self.model.class_attr(obj.cls.module, obj.cls.node, name)
@@ -1423,6 +1474,20 @@ class Interp(object):
                 raise Raised(Exc('ValueError', 'unpack %d into %d' % (len(items), len(t.elts))))
             for e, item in zip(t.elts, items):
                 self.assign(e, item, fr)
+        elif isinstance(t, ast.Subscript) and isinstance(t.slice, ast.Slice):
+            # base[lo:hi] = iterable  on a list of known shape with constant bounds
+            from . import absmodels
+            base = self.expr(t.value, fr)
+            sl = t.slice
+            lo = self.expr(sl.lower, fr) if sl.lower is not None else Const(None)
+            hi = self.expr(sl.upper, fr) if sl.upper is not None else Const(None)
+            if sl.step is not None or not isinstance(base, ListV) or base.has_splice() or base.kind != 'list' \
+                    or not all(isinstance(b_, Const) and (b_.value is None or isinstance(b_.value, int)) for b_ in (lo, hi)):
+                raise Unmodelled('slice assignment on %r' % (base,))
+            new = absmodels.iter_items(self, v)
+            if any(isinstance(i_, Splice) for i_ in new):
+                self.imprecise('slice assignment of a run of unknown length')
+            base.items[slice(lo.value, hi.value)] = new
         elif isinstance(t, ast.Subscript):
             base = self.expr(t.value, fr)
             idx = self.expr(t.slice, fr)
@@ -1448,6 +1513,8 @@ class Interp(object):
                 base.attrs[t.attr] = v
             elif isinstance(base, Func):
                 base.attrs[t.attr] = v
+            elif isinstance(base, ClassV) and base.module is not None:
+                self.class_dynamic(base, run=False)[t.attr] = v
             elif isinstance(base, (Err, Exc)) or getattr(base, 'tag', None) == 'err':
                 pass        # e.__traceback__ = None
             else:
@@ -1586,8 +1653,15 @@ class Interp(object):
             members = self.enum_members(base)
             if members is not None and attr in members:
                 return members[attr]
+            if base.module is not None:
+                dv = self.class_dynamic(base).get(attr)
+                if dv is not None:
+                    return dv
             lm = self.model.lookup_method(base.module, base.node, attr)
             if lm:
+                decos = [src(d_) for d_ in getattr(lm[2], 'decorator_list', [])]
+                if 'classmethod' in decos:
+                    return Bound(base, Func(lm[0], lm[2]))
                 return Func(lm[0], lm[2])
             ca = self.model.class_attr(base.module, base.node, attr)
             if ca:
